@@ -1,6 +1,7 @@
 (* Correspondence obligations for C20: the model's output on the cases the implementation ran.
    format_model: px.NewFormatContext3(value, spec) + px.ToString2  vs  format_value (text or error class), and the
-                 observed text vs the float shape specification (float_shape_check)
+                 observed text vs the float shape specification (float_shape_check), vs the closed g G shape
+                 (float_g_check, fdig_unsigned) and vs the closed Array layout (arr_closed_check, Model/FormatClosed.v)
    radix_model : the rendering of an integer and px.New(c, Integer, text, radix)  vs  format_value / int_new
    radix_pad_model : the same for renderings under any flags, width and precision (padding spaces trimmed),
                  through the positional and the named dispatch of the constructor  vs  int_ctor
@@ -13,7 +14,7 @@
    keys_model  : px.IsAssignable between the key types of format maps, and of key types against the
                  values' inferred types  vs  key_sub / key_accepts *)
 From Coq Require Import ZArith NArith Bool List.
-From PcoreV Require Import Model.Base Model.Format Model.FormatShare Model.FormatSprintf Model.FormatFloatShape.
+From PcoreV Require Import Model.Base Model.Format Model.FormatShare Model.FormatSprintf Model.FormatFloatShape Model.FormatClosed.
 Import ListNotations.
 Open Scope Z_scope.
 
@@ -45,13 +46,19 @@ Record fcase := mkCase { c_v : value; c_spec : fspec; c_o : oracle; c_obs : obs 
 (* float_shape_check (Model/FormatFloatShape.v), on every case: the digit strings the implementation showed are ASCII
    (the hypothesis fdig_ascii of C20_width_respected / C20_float_shape), and for a Boolean / Integer / Float under a
    directive string with e E f g G a A the observed text is `width` runes wide and, under e E f a A, IS the shape
-   go_fmt_float_spec around the observed digit string *)
+   go_fmt_float_spec around the observed digit string.
+   float_g_check / fdig_unsigned (Model/FormatClosed.v): under g G the observed text IS float_g_spec (the one closed
+   shape of floatGFormat) around the observed digit strings, which begin with no sign character (the hypothesis of
+   C20_float_g_shape_closed_unsigned); arr_closed_check: an Array's observed text IS arr_layout_closed (the closed
+   formula of C20_array_layout_alternate_closed / _closed) of its children's texts *)
 Definition format_check (c : fcase) : bool :=
   match format_value (c_o c) (c_v c) (c_spec c) with
   | Some r => obs_eqb r (c_obs c)
   | None => false                         (* out of fuel: never (Properties/C20.v, format_total) *)
   end
-  && float_shape_check (c_o c) (c_v c) (c_spec c) (c_obs c).
+  && float_shape_check (c_o c) (c_v c) (c_spec c) (c_obs c)
+  && fdig_unsigned (c_o c) && float_g_check (c_o c) (c_v c) (c_spec c) (c_obs c)
+  && arr_closed_check (c_o c) (c_v c) (c_spec c) (c_obs c).
 Definition format_mismatches (cs : list fcase) : list N := failing format_check cs.
 
 Record scase := mkSCase { s_v : lvalue; s_spec : fspec; s_o : oracle; s_obs : obs }.
